@@ -44,26 +44,63 @@ def bump(idgen: Any, bumps: dict[str, int]) -> None:
             idgen._ids[k] = int(v)  # pylint: disable=protected-access
 
 
-def garbage(n: int) -> None:
-    if n <= 0:
+GARBAGE_KINDS = ("sym", "fun", "qty", "qty1f", "qty1", "qty0f", "vec", "cs", "calc", "conv", "solve", "float_arith")
+
+
+def garbage(spec: Any) -> None:
+    """Unrelated library use before the module under observation is imported.  `spec` is a list of kinds (generated)
+    or an int (that many mixed objects)."""
+    # pylint: disable=too-many-branches
+    if isinstance(spec, int):
+        spec = [GARBAGE_KINDS[i % 9] for i in range(spec)]
+    if not spec:
         return
     import sympy
     from sympy.physics import units
-    from symplyphysics import CoordinateSystem, Function, Quantity, Symbol
+    from symplyphysics import CoordinateSystem, Function, Quantity, Symbol, convert_to_float
     from symplyphysics.core.experimental.vectors import VectorSymbol
-    keep = []
-    for i in range(n):
-        keep.append(Symbol(f"g{i}", units.length, positive=bool(i % 2)))
-        keep.append(Function(f"h{i}", dimension=units.time))
-        keep.append(Quantity((i + 2) * units.second))
-        if i % 4 == 0:
+    keep: list[Any] = []
+    for i, kind in enumerate(spec):
+        try:
+            _garbage_one(i, kind, keep)
+        except Exception:  # pylint: disable=broad-except
+            pass  # a failing unrelated use is irrelevant to the module under observation
+
+
+def _garbage_one(i: int, kind: str, keep: list[Any]) -> None:
+    # pylint: disable=too-many-branches
+    import sympy
+    from sympy.physics import units
+    from symplyphysics import CoordinateSystem, Function, Quantity, Symbol, convert_to_float
+    from symplyphysics.core.experimental.vectors import VectorSymbol
+    if True:  # pylint: disable=using-constant-test
+        if kind == "sym":
+            keep.append(Symbol(f"g{i}", units.length, positive=bool(i % 2)))
+        elif kind == "fun":
+            keep.append(Function(f"h{i}", dimension=units.time))
+        elif kind == "qty":
+            keep.append(Quantity((i + 2) * units.second))
+        elif kind == "qty1f":
+            keep.append(Quantity(1.0))
+        elif kind == "qty1":
+            keep.append(Quantity(1))
+        elif kind == "qty0f":
+            keep.append(Quantity(0.0, dimension=units.length))
+        elif kind == "vec":
             keep.append(VectorSymbol(f"w{i}"))
-        if i % 8 == 0:
+        elif kind == "cs":
             keep.append(CoordinateSystem())
-    # warm SymPy's cache with unrelated expressions
-    x, y = keep[0], keep[3] if len(keep) > 3 else keep[0]
-    _ = sympy.expand((x + y + 1)**3)
-    _ = sympy.solve(x**2 - 2 * x - 3, x)
+        elif kind == "calc":
+            from symplyphysics.laws.dynamics import acceleration_is_force_over_mass as law
+            keep.append(law.calculate_force(Quantity(2.0 * units.kilogram), Quantity(1.0 * units.meter / units.second**2)))
+        elif kind == "conv":
+            keep.append(convert_to_float(Quantity(sympy.S.One)))
+        elif kind == "solve":
+            x = sympy.Symbol("x")
+            keep.append(sympy.solve(x**2 - 2 * x - 3, x))
+            keep.append(sympy.expand((x + 1)**3))
+        elif kind == "float_arith":
+            keep.append(Quantity(1.0 * units.meter) if i % 2 else Quantity(2.5))
 
 
 class _Hang(BaseException):
@@ -189,7 +226,7 @@ def main() -> None:
     recipe = job.get("recipe", [])
     if job["mode"] == "full":
         bump(idgen, job.get("bumps", {}))
-        garbage(int(job.get("garbage", 0)))
+        garbage(job.get("garbage", 0))
         for m in job["modules"]:
             try:
                 importlib.import_module(m)
@@ -207,7 +244,7 @@ def main() -> None:
                 try:
                     os.close(r)
                     bump(idgen, bumps)
-                    garbage(int(garb))
+                    garbage(garb)
                     before = dict(idgen._ids)  # pylint: disable=protected-access
                     obs = observe(m, salt, [])
                     after = dict(idgen._ids)  # pylint: disable=protected-access
